@@ -68,6 +68,9 @@ def one(ctx, data, meta=None, opts=pk.OPTS):
 
 def run(ctx):
     for f in stored_corpus('C01'): replay(ctx, json.load(open(f)))
+    from gen.probes import probes
+    for name, data in probes('C01'):
+        ctx.count('probe'); one(ctx, data, None)
     n = 60 if ctx.quick else 2000
     for pkg, meta, rng in stream(ctx, PROF, n):
         data = pkg.to_bytes()
